@@ -359,6 +359,11 @@ def run(ctx, out, tier):
         _detect_once(ctx, out, _dv, rule="C07.detect")
     else:
         out.inst("C07.detect", 0, 4)
+    # what the rule judges is the text between the tags: the content's ends and its byte range (shared with C03 / C04)
+    from rules.C03 import check_content as _check_content
+    shared.run_renamed(out, lambda o: _check_content(ctx, o), "C03", "C07")
+    from rules.C04 import check_content_range as _check_content_range
+    _check_content_range(ctx, out, rule="C07.contentrange")
     # what a validator found is only reported if the report keeps every violation (shared with C11)
     from rules.C11 import check_items as _check_items
     shared.run_renamed(out, lambda o: _check_items(ctx, o), "C11", "C07")
